@@ -106,8 +106,10 @@ AreLongest(r, w, ms) == \A i \in 1..Len(ms) : ms[i][2] = GreedyEnd(r, w, ms[i][1
 OrderedDisjoint(ms) == \A i \in 1..(Len(ms) - 1) : ms[i][2] <= ms[i + 1][1]
 Complete(r, w, ms) == \A s \in 0..(Len(w) - 1) :
                         GreedySucceeds(r, w, s) => \E i \in 1..Len(ms) : ms[i][1] <= s /\ s < ms[i][2]
-(* EvictEnclosing (finding F10-C14): position s is left uncovered although greedy matching *)
-(* succeeds there, because a reported match that starts later lies inside its greedy span  *)
+(* Eviction (defect F10-C14, repaired by d7bef04): position s is left uncovered although   *)
+(* greedy matching succeeds there, because a reported match that starts later lies inside  *)
+(* its greedy span. Kept as a sub-classification of the Complete clause: both names are    *)
+(* violations, the second one tells the reader that the old defect has come back.          *)
 Covered(ms, s) == \E i \in 1..Len(ms) : ms[i][1] <= s /\ s < ms[i][2]
 Evicted(r, w, ms, s) == /\ GreedySucceeds(r, w, s) /\ ~Covered(ms, s)
                         /\ \E i \in 1..Len(ms) : s < ms[i][1] /\ ms[i][2] <= GreedyEnd(r, w, s)
